@@ -27,7 +27,16 @@ impl VM {
     }
 
     pub fn maybe_collect(&mut self) {
+        #[cfg(vbxq_aelys_lang_verif)]
+        crate::verif::gc_safepoint(self.no_gc_depth);
         if self.is_in_no_gc() {
+            return;
+        }
+        #[cfg(vbxq_aelys_lang_verif)]
+        if let Some(force) = crate::verif::gc_decide() {
+            if force {
+                self.collect();
+            }
             return;
         }
         if self.heap.should_collect() {
@@ -36,6 +45,8 @@ impl VM {
     }
 
     pub fn collect(&mut self) {
+        #[cfg(vbxq_aelys_lang_verif)]
+        crate::verif::gc_collected(self.no_gc_depth);
         for frame in &self.frames {
             let base = frame.base;
             let count = frame.num_registers as usize;
